@@ -96,7 +96,7 @@ pub fn run(ctx: &Ctx) -> ! {
                     if checked >= 1 {
                         let key = format!("{}|{}", w.programs[*prog].source, serde_json::to_string(&w.events[*event]).unwrap());
                         let fresh = ev.distinct.insert(fnv(key.as_bytes()));
-                        if fresh && samples.len() < 3 && ev.distinct.len() % 211 == 1 {
+                        if fresh && samples.len() < 3 && (samples.is_empty() || ev.distinct.len() % 211 == 1) {
                             samples.push(serde_json::json!({"program": w.programs[*prog].source, "event": w.events[*event], "fault_plan": faults, "target_ops": o.target_ops, "compile_outcome_head": wr.precompiled.get(*prog).and_then(|x| x.as_ref()).map(|x| x.lines().take(4).collect::<Vec<_>>().join(" | "))}));
                         }
                     }
